@@ -20,3 +20,4 @@ import Tx3Proofs.C02Balance
 #print axioms Tx3.C02_source_to_output
 #print axioms Tx3.den_minusAll
 #print axioms Tx3.C02_balance
+#print axioms Tx3.C02_balance_mint
